@@ -606,20 +606,27 @@ func ledgerFailures(post, pre *State, kind string, ok bool) map[string]string {
 		if w.Cmp(a.S) != 0 {
 			diff := new(big.Int).Sub(a.S, w)
 			diff.Abs(diff)
+			// only the drift this step ADDS is judged: a difference carried over from the pre-state was classified
+			// there, and a shrinking total must not turn old dust into a new failure
+			if pa := pre.Asset(a.Denom); pa != nil {
+				pw := new(big.Int)
+				for _, vi := range pre.Vals {
+					pw.Add(pw, dcAmt(vi.VS, a.Denom))
+				}
+				pd := new(big.Int).Sub(pa.S, pw)
+				pd.Abs(pd)
+				if diff.Cmp(pd) > 0 {
+					diff = new(big.Int).Sub(diff, pd)
+				} else {
+					diff = new(big.Int)
+				}
+			}
 			cls := "valshares_sum"
 			n := big.NewInt(int64(4 * (len(post.Dels) + len(pre.Dels) + 4)))
 			// sub-share drift per clamped subtraction / dust clearing (D13); at large magnitudes one ulp of a
 			// share ratio is worth many shares, so the dust bound is also relative (1e-12 of the total per event)
 			rel := new(big.Int).Quo(new(big.Int).Mul(new(big.Int).Abs(a.S), n), big.NewInt(1_000_000_000_000))
-			// … and a position worth less than one token is cleared as dust: at a share price above one share per token
-			// that is up to one token's worth of shares per event
-			perToken := new(big.Int).Set(bigP)
-			if a.T.Sign() > 0 {
-				if q := new(big.Int).Quo(new(big.Int).Abs(a.S), a.T); q.Cmp(perToken) > 0 {
-					perToken = q
-				}
-			}
-			if diff.Cmp(new(big.Int).Mul(bigP, n)) < 0 || diff.Cmp(rel) < 0 || diff.Cmp(new(big.Int).Mul(perToken, n)) < 0 {
+			if diff.Cmp(new(big.Int).Mul(bigP, n)) < 0 || diff.Cmp(rel) < 0 {
 				cls = "valshares_dust"
 			} else if pa := pre.Asset(a.Denom); (pa != nil && pa.T.Cmp(bigE15) >= 0) || a.T.Cmp(bigE15) >= 0 || a.S.Cmp(new(big.Int).Mul(bigE15, bigP)) >= 0 || w.Cmp(new(big.Int).Mul(bigE15, bigP)) >= 0 {
 				cls = "valshares_dust_large" // D14: one ulp of a share ratio times 1e15+ tokens is many shares
